@@ -813,7 +813,9 @@ class Note(object):
       # Raise exception for unknown step (ex: 'Q')
       raise PitchStepParseError('Unable to parse pitch step ' + step)
 
-    pitch_class = (pitch_class + int(alter)) % 12
+    # Do not reduce modulo 12: an alteration that crosses the octave boundary
+    # (Cb4 = 59, B#3 = 60) stays in the notated octave's numbering.
+    pitch_class = pitch_class + int(alter)
     midi_pitch = (12 + pitch_class) + (int(octave) * 12)
     return midi_pitch
 
